@@ -240,7 +240,9 @@ func (s *ServantProxy) doInvoke(ctx context.Context, msg *Message, timeout time.
 
 	if s.pushCallback != nil {
 		// auto keep alive for push client
-		go adp.onceKeepAlive.Do(adp.autoKeepAlive)
+		// (Do returns to every caller only when its function has returned: the keep-alive
+		// loop must not run inside it, or each later call leaves a goroutine blocked in Do)
+		adp.onceKeepAlive.Do(func() { go adp.autoKeepAlive() })
 		adp.pushCallback = s.pushCallback
 	}
 
